@@ -74,7 +74,8 @@ Report ==
            PrintT(ToJson([id |-> rec.id, v |-> verdict, n |-> l, drift |-> drift,
                           op |-> ev.op, fn |-> ev.fn, md |-> ev.md,
                           \* how the compared / looked-up objects came to be here ("" = built here)
-                          via |-> { arrival[k] : k \in { k2 \in {ev.i, ev.j} : k2 \in 1..Len(arrival) } } \ {""},
+                          via |-> { arrival[k] : k \in { k2 \in 1..Len(arrival) :
+                                       k2 \in {ev.i, ev.j} \/ ev.op \notin {"Eq", "Ne"} } } \ {""},
                           ci |-> ClsOf(ev.i), cj |-> ClsOf(ev.j),
                           tmpl |-> IF ClsOf(ev.i) = "" THEN "" ELSE TmplOf(ClsOf(ev.i)),
                           own |-> IF ClsOf(ev.i) # "" /\ ev.fn # ""
